@@ -19,6 +19,7 @@ def main():
     ap.add_argument('--tier', default='quick')
     ap.add_argument('--only', nargs='*')
     ap.add_argument('--props', default='')
+    ap.add_argument('--wt', default='/tmp/seedwt', help='scratch worktree path (use different paths for concurrent runs)')
     ap.add_argument('--redo', action='store_true', help='also re-evaluate seeds that already have a verdict')
     a = ap.parse_args()
     import registry
@@ -35,7 +36,7 @@ def main():
             rows.append((sid, meta['property'], 'DETECTED by ' + ','.join(meta['detected_by']) if meta.get('detected_by') else 'MISSED', '; '.join(o for p in (meta.get('detected_by') or {}) for o in meta['detected_by'][p][:2])))
             continue
         d = os.path.dirname(mp)
-        wt = '/tmp/seedwt'   # one path for all seeds: the Kani target dir (keyed by the path) and its compiled dependencies are reused
+        wt = a.wt   # one path for all seeds of a run: the Kani target dir (keyed by the path) and its compiled dependencies are reused
         sh('git -C /repo worktree remove --force %s' % wt)
         # Cargo.lock is not tracked in the repository: copy it, so that the scratch copy resolves (and hashes) like /repo
         r = sh('git -C /repo worktree add -q --detach %s HEAD && cp /repo/Cargo.lock %s/ && git -C %s apply %s/patch.diff' % (wt, wt, wt, d))
